@@ -26,6 +26,15 @@ def action_text(action):
         action.name, params, pre, disc, nums, conds, univs)
 
 
+def rest_text(domain, skip):
+    """everything of the domain that a renaming of the action `skip` must leave alone: the declared predicates and
+    functions and the other actions, printed by the library (whitespace normalised)"""
+    parts = ["(:predicates"] + [str(p) for p in domain.predicates.values()] + [")", "(:functions"] + \
+        [str(f) for f in domain.functions.values()] + [")"] + \
+        [action_text(a) for n, a in domain.actions.items() if n != skip]
+    return " ".join(" ".join(parts).split())
+
+
 def behaviour(domain, action, problem_text, args):
     ppath = write_tmp(problem_text, ".pddl")
     r = {}
@@ -72,6 +81,7 @@ def rename(job):
     texts = [job["domain_text"]]
     out["print0"] = action_text(a1)
     texts.append(out["print0"])
+    out["rest0"] = rest_text(d1, job["action"])
     mapping = {}
     for old, new in job["mapping"]:
         mapping[old] = new
@@ -90,6 +100,10 @@ def rename(job):
         texts.append(out["print1"]["value"])
     except Exception as e:  # noqa
         out["print1"] = exc(e)
+    try:
+        out["rest1"] = {"value": rest_text(d1, job["action"])}
+    except Exception as e:  # noqa
+        out["rest1"] = exc(e)
     out["nums"] = {}
     for t in texts:
         out["nums"].update(number_table(t))
